@@ -233,12 +233,14 @@ CLAIMED = {
    text="PARTIAL - deductive proof of the clauses listed here on the real source, bounded stand-ins (never counted as proved) for the rest of the property. The scope-stack bookkeeping of CtxAwareTransformer with `contexts` as a list of name sets (sets live by value in their list slot): ctxadd / ctxupdate bind "
         "in the innermost scope and leave every other scope unchanged; ctxremove unbinds the name in the innermost scope that has it and nowhere else (loop "
         "invariant over the reversed stack; an outer binding of the same name stays, as in Python); visit_Global adds the names to the module scope "
-        "contexts[1] only, at any nesting depth; visit_ClassDef / visit_FunctionDef give the name to the enclosing scope, open a fresh EMPTY scope before "
+        "contexts[1] only, at any nesting depth; visit_Import / visit_ImportFrom bind, for every clause, exactly the name Python binds (the alias, else the first dotted "
+        "component / the imported name) in the innermost scope only (loop invariants); visit_AnnAssign, visit_NamedExpr, visit_Try bind their target / `except .. as` names "
+        "before the sub-nodes are visited; visit_Delete never binds anything; visit_ClassDef / visit_FunctionDef give the name to the enclosing scope, open a fresh EMPTY scope before "
         "parameters are bound / the body is visited, and close it again. Bounded stand-in (not proved): 12 binding forms x scope depths 0..2 (global: 1..3) x "
         "probe positions + del / parameter / class-body / session-name cases through the real Execer.parse, decision on a probe line `X -l` against Python's "
         "scoping rules.",
-   note="One genuine defect repaired (fix: 2827a8d: a walrus inside an expression statement was not recorded). Unverified: is_in_scope / the name gathering "
-        "helpers (gather_names, leftmostname), every other visitor (Assign, Import, For, With, Try, NamedExpr - bounded only), the with-body hypothesis on "
+   note="Two genuine defects repaired (fix: 2827a8d: a walrus inside an expression statement was not recorded; c760ec2: `import a.b` recorded "a.b" instead of a). Unverified: is_in_scope / the name gathering "
+        "helpers (gather_names, leftmostname), visit_Assign / visit_For / visit_With (their name gathering goes through gather_names / leftmostname - bounded only), the with-body hypothesis on "
         "generic_visit (stack depth preserved), ctxupdate's generator argument in visit_FunctionDef (abstracted: assumed to touch the innermost scope only, "
         "which is ctxupdate's own verified contract), the three-phase parse and 'decision before anything runs' (Execer.parse / compile / exec), "
         "_SubprocChainRaiseWrapper. Trusted: pyvc engine + set-slot model + z3/cvc5.",
